@@ -57,6 +57,7 @@ type api struct {
 	letters      []letter
 	maxTimeout   time.Duration // largest timeout configured for the protocol(s) involved
 	maxLen       int           // cap on the script length (0 = tier default)
+	lite         bool          // fewer scripts get the perturbed schedules (see reduced)
 	bound        int           // deviation bound for scripts of length <= boundLen (0 = tier default)
 	boundLen     int
 }
@@ -215,7 +216,12 @@ func csAPIs(ntn bool) []*api {
 		tip.calls[0],
 		{name: "Close", isClose: true, run: func(c *conn, h *hooks) string { return res(c.Close()) }},
 	}
-	return []*api{sync, tip, rng, stop, stopIdle, cl, clBusy}
+	all := []*api{sync, tip, rng, stop, stopIdle, cl, clBusy}
+	for _, sp := range all {
+		sp.lite = !ntn
+	}
+	clBusy.lite = true
+	return all
 }
 
 // ---- block-fetch ------------------------------------------------------------------------
@@ -447,7 +453,7 @@ func txsAPIs() []*api {
 		return nil
 	}
 	base := func(label string) *api {
-		return &api{proto: "tx-submission", label: label, ntn: true, server: true, pid: pid, opts: opts,
+		return &api{proto: "tx-submission", label: label, ntn: true, server: true, lite: true, pid: pid, opts: opts,
 			start:   func(c *conn) { c.TxSubmission().Server.Start() },
 			letters: letters, maxTimeout: 10 * time.Second, reqs: 1,
 			peerPre: []peerStep{{pid: pid, send: [][]byte{enc(txsubmission.NewMsgInit())}}}}
